@@ -13,6 +13,15 @@
 #include <ompl/geometric/planners/rrt/RRT.h>
 #include <ompl/geometric/planners/rrt/RRTConnect.h>
 #include <ompl/base/objectives/PathLengthOptimizationObjective.h>
+#include <ompl/base/objectives/StateCostIntegralObjective.h>
+
+// an additive, non-metric objective (cost-aware routines must not worsen it): state cost 1 + 200 y (steep: straight shortcuts higher up are usually worse), exact under the trapezoid rule
+class HeightCost : public ob::StateCostIntegralObjective
+{
+public:
+    HeightCost(const ob::SpaceInformationPtr &si) : ob::StateCostIntegralObjective(si, false) {}
+    ob::Cost stateCost(const ob::State *s) const override { std::vector<double> r; si_->getStateSpace()->copyToReals(r, s); return ob::Cost(1.0 + 200.0 * r[1]); }
+};
 
 int main(int argc, char **argv)
 {
@@ -32,7 +41,8 @@ int main(int argc, char **argv)
             ob::State *s0 = w.space->allocState(), *g0 = w.space->allocState();
             set_pos(w, s0, 0.1, (seed & 1) ? 0.1 : 0.5, 0.3); set_pos(w, g0, 0.9, (seed & 1) ? 0.9 : 0.5, 1.0);
             auto pdef = std::make_shared<ob::ProblemDefinition>(w.si); pdef->addStartState(s0); pdef->setGoalState(g0, 0.05);
-            auto obj = std::make_shared<ob::PathLengthOptimizationObjective>(w.si);
+            bool integral = mode.size() > 4 && mode.substr(mode.size() - 4) == ":int"; if (integral) mode = mode.substr(0, mode.size() - 4);
+            ob::OptimizationObjectivePtr obj; if (integral) obj = std::make_shared<HeightCost>(w.si); else obj = std::make_shared<ob::PathLengthOptimizationObjective>(w.si);
             auto plan = [&](unsigned sd) -> std::shared_ptr<og::PathGeometric>
             {
                 pdef->clearSolutionPaths();
@@ -43,7 +53,16 @@ int main(int argc, char **argv)
                 if (st != ob::PlannerStatus::EXACT_SOLUTION) return nullptr;
                 return std::make_shared<og::PathGeometric>(*std::dynamic_pointer_cast<og::PathGeometric>(pdef->getSolutionPath()));
             };
-            auto path = plan(seed);
+            std::shared_ptr<og::PathGeometric> path;
+            if (mode == "ushape")
+            {   // a hand-made valid path that dips to small y (cheap under the height objective): straight shortcuts higher up cost more
+                path = std::make_shared<og::PathGeometric>(w.si); std::mt19937 g(seed); std::uniform_real_distribution<double> u(0, 1);
+                double ylow = 0.05 + 0.2 * u(g), x0 = 0.1 + 0.1 * u(g), x1 = 0.9 - 0.1 * u(g);
+                std::vector<std::pair<double, double>> pts = {{x0, 0.9}, {x0, 0.5 + 0.2 * u(g)}, {x0, ylow}, {(x0 + x1) / 2, ylow}, {x1, ylow}, {x1, 0.6}, {x1, 0.9}};
+                ob::State *t = w.space->allocState(); for (auto &p : pts) { set_pos(w, t, p.first, p.second, 0.0); path->append(t); if (seed % 3 == 0) path->append(t); } w.space->freeState(t);
+                set_pos(w, g0, x1, 0.9, 0.0); pdef->setGoalState(g0, 0.05);
+            }
+            else path = plan(seed);
             if (!path) { std::cout << "SKIP no input path\nEND" << std::endl; return; }
             if (mode == "dense") path->interpolate((unsigned)(path->getStateCount() * 3));
             if (mode == "dup")
